@@ -60,3 +60,27 @@ MUTANTS += [
 CONTROLS += [
     mut('ctl-blockwise-periods', ['C02', 'C01'], (SD, "    a, b = compute_a_and_b(xi, w, dt)\n", "    a, b = compute_a_and_b(xi, w * 1.0, dt)\n"), control=True),
 ]
+
+MUTANTS += [
+    # ---- C04: every single cache-invalidation line -------------------------------------------------------------------
+    mut('c04-Signal.clear_cache-smooth', ['C04'], (SG, '        """Resets the dynamically calculated properties."""\n        self._cached_smooth_fa = False\n', '        """Resets the dynamically calculated properties."""\n')),
+    mut('c04-Signal.clear_cache-fa', ['C04', 'C06'], (SG, '        """Resets the dynamically calculated properties."""\n        self._cached_smooth_fa = False\n        self._cached_fa = False\n', '        """Resets the dynamically calculated properties."""\n        self._cached_smooth_fa = False\n')),
+    mut('c04-Acc.clear_cache-smooth', ['C04'], (SG, "    def clear_cache(self):\n        self._cached_smooth_fa = False\n        self._cached_fa = False\n        self._cached_response_spectra = False", "    def clear_cache(self):\n        self._cached_fa = False\n        self._cached_response_spectra = False")),
+    mut('c04-Acc.clear_cache-fa', ['C04', 'C06'], (SG, "    def clear_cache(self):\n        self._cached_smooth_fa = False\n        self._cached_fa = False\n        self._cached_response_spectra = False", "    def clear_cache(self):\n        self._cached_smooth_fa = False\n        self._cached_response_spectra = False")),
+    mut('c04-Acc.clear_cache-resp', ['C04', 'C02'], (SG, "        self._cached_response_spectra = False\n        self._cached_disp_and_velo = False\n        self.reset_all_motion_stats()", "        self._cached_disp_and_velo = False\n        self.reset_all_motion_stats()")),
+    mut('c04-Acc.clear_cache-veldisp', ['C04', 'C08'], (SG, "        self._cached_response_spectra = False\n        self._cached_disp_and_velo = False\n        self.reset_all_motion_stats()", "        self._cached_response_spectra = False\n        self.reset_all_motion_stats()")),
+    mut('c04-Acc.clear_cache-stats', ['C04', 'C08'], (SG, "        self._cached_disp_and_velo = False\n        self.reset_all_motion_stats()", "        self._cached_disp_and_velo = False")),
+    mut('c04-reset_all_motion_stats-params', ['C04', 'C08'], (SG, "        self.arias_intensity = 0.0\n        self._cached_params = {}", "        self.arias_intensity = 0.0")),
+    mut('c04-remove_rolling_average-no-clear', ['C04'], (SG, "            self._values -= roll\n        self.clear_cache()", "            self._values -= roll")),
+    mut('c04-rebase_displacement-no-clear', ['C04'], (SG, "        self._values -= acceleration_correction\n        self.clear_cache()", "        self._values -= acceleration_correction")),
+    mut('c04-setter-smooth_fa_frequencies', ['C04'], (SG, "        self._smooth_fa_freqs = np.array(frequencies, dtype=float)\n        self._cached_smooth_fa = False", "        self._smooth_fa_freqs = np.array(frequencies, dtype=float)")),
+    mut('c04-setter-smooth_fa_freqs', ['C04'], (SG, "        self._smooth_fa_freqs = np.array(freqs, dtype=float)\n        self._cached_smooth_fa = False", "        self._smooth_fa_freqs = np.array(freqs, dtype=float)")),
+    mut('c04-set_by_range-no-invalidate', ['C04'], (SG, "        self._smooth_freq_range = np.array(limits)\n        self._cached_smooth_fa = False", "        self._smooth_freq_range = np.array(limits)")),
+    mut('c04-reset_values-npts', ['C04', 'C05'], (SG, "        self._npts = len(self._values)\n        self.clear_cache()", "        self.clear_cache()")),
+    mut('c04-F2-regress', ['C04'], (SG, "        self._response_times = values\n        self._cached_response_spectra = False", "        self._response_times = values")),
+    mut('c04-reset_values-skips-clear-when-same-length', ['C04', 'C06'], (SG, "        self._npts = len(self._values)\n        self.clear_cache()", "        if len(self._values) != self._npts:\n            self.clear_cache()\n        self._npts = len(self._values)")),
+    mut('c04-pga-cached-across-add_constant', ['C04', 'C08'], (SG, "        self.reset_values(self.values + constant)", "        keep = dict(getattr(self, '_cached_params', {}))\n        self.reset_values(self.values + constant)\n        if 'pgv' in keep:\n            self._cached_params['pgv'] = keep['pgv']")),
+]
+CONTROLS += [
+    mut('ctl-clear-cache-reordered', ['C04'], (SG, "        self._cached_response_spectra = False\n        self._cached_disp_and_velo = False\n        self.reset_all_motion_stats()", "        self._cached_disp_and_velo = False\n        self._cached_response_spectra = False\n        self.reset_all_motion_stats()"), control=True),
+]
